@@ -37,6 +37,10 @@ struct Case {
     steps: Vec<Step>,
     write_faults: Vec<u16>,
     flush_faults: Vec<u16>,
+    /// every write of the underlying writer takes this many milliseconds (0 = instant): a backlog
+    /// then needs a noticeable part of the guard's documented one-second patience to drain
+    #[serde(default)]
+    slow_write_ms: u8,
 }
 
 #[derive(Clone, Debug, PartialEq)]
@@ -52,6 +56,7 @@ struct Shared {
     write_faults: HashSet<usize>,
     flush_faults: HashSet<usize>,
     counters: Mutex<(usize, usize)>,
+    slow_write_ms: u64,
 }
 struct Scripted(Arc<Shared>);
 impl Write for Scripted {
@@ -68,6 +73,9 @@ impl Write for Scripted {
             c.0 - 1
         };
         let ok = !self.0.write_faults.contains(&idx);
+        if self.0.slow_write_ms > 0 {
+            std::thread::sleep(Duration::from_millis(self.0.slow_write_ms));
+        }
         self.0.log.lock().unwrap().push(Call::Write { bytes: buf.to_vec(), ok });
         if ok {
             Ok(buf.len())
@@ -166,6 +174,8 @@ fn run_case(case: &Case) -> Outcome {
         write_faults: case.write_faults.iter().map(|x| *x as usize).collect(),
         flush_faults: case.flush_faults.iter().map(|x| *x as usize).collect(),
         counters: Mutex::new((0, 0)),
+        // (at most 8 queued lines + 4 blocked producers: 12 x 45 ms stays well below the second)
+        slow_write_ms: (case.slow_write_ms as u64).min(45),
     });
     let cap = (case.capacity as usize).clamp(1, 8);
     let (nb, guard) = NonBlockingBuilder::default().buffered_lines_limit(cap).lossy(case.lossy).finish(Scripted(sh.clone()));
@@ -461,6 +471,9 @@ fn run_case(case: &Case) -> Outcome {
     if dropped > 0 {
         classes.push("lines_dropped_lossy".into());
     }
+    if case.slow_write_ms > 0 {
+        classes.push("slow_writer_guard_dropped_over_backlog".into());
+    }
     if bursts > 0 && np > 1 {
         classes.push(if dropped > 0 { "simultaneous_burst_with_drops".into() } else { "simultaneous_burst".into() });
     }
@@ -497,15 +510,31 @@ impl Property for C15 {
             1 => Just(Step::DropGuard),
         ];
         let max = tier.pick(12usize, 24usize);
-        (1u8..=8, any::<bool>(), 1u8..=4, proptest::collection::vec(step, 1..max), proptest::collection::vec(0u16..30, 0..4), proptest::collection::vec(0u16..12, 0..3))
-            .prop_map(|(capacity, lossy, producers, steps, write_faults, flush_faults)| Case { capacity, lossy, producers, steps, write_faults, flush_faults })
-            .boxed()
+        let general = (1u8..=8, any::<bool>(), 1u8..=4, proptest::collection::vec(step, 1..max), proptest::collection::vec(0u16..30, 0..4), proptest::collection::vec(0u16..12, 0..3))
+            .prop_map(|(capacity, lossy, producers, steps, write_faults, flush_faults)| Case { capacity, lossy, producers, steps, write_faults, flush_faults, slow_write_ms: 0 });
+        // template: a slow underlying writer (20-45 ms per write) and a guard dropped over a full
+        // queue: draining takes a few hundred milliseconds, well inside the guard's documented
+        // one-second patience, and the drop must not return before it is done
+        let slow = (3u8..=8, any::<bool>(), 1u8..=3, 20u8..=45, proptest::collection::vec((0u8..4, 0u8..6), 2..5), any::<bool>()).prop_map(|(capacity, lossy, producers, slow_write_ms, offers, settle_first)| {
+            let mut steps = vec![];
+            if settle_first {
+                steps.push(Step::Offer { p: 0, n: 0 });
+                steps.push(Step::Settle);
+            }
+            steps.push(Step::CloseGate);
+            for (p, n) in offers {
+                steps.push(Step::Offer { p, n });
+            }
+            steps.push(Step::DropGuard);
+            Case { capacity, lossy, producers, steps, write_faults: vec![], flush_faults: vec![], slow_write_ms }
+        });
+        prop_oneof![32 => general, 1 => slow].boxed()
     }
     fn run(&self, case: &Case) -> Outcome {
         run_case(case)
     }
     fn rule(&self) -> String {
-        "case = capacity 1-8 x lossy|non-lossy x 1-4 producer threads x <=12 (thorough <=24) steps {Offer(p, 1-6 unique lines), OfferBig(p, one line of 60 000-200 000 bytes), Burst (every producer offers 50-350 lines in a tight loop, all released by a barrier), CloseGate (underlying write blocks), OpenGate, Settle, DropGuard (appended if absent; producers may offer afterwards)} x fault script (subset of the first 30 write attempts and the first 12 flushes fail). non-trivial: a fault was injected, or the guard was dropped with a backlog, or lines were offered while the writer was stalled and (lines were dropped | mode is non-lossy); distinct by case".into()
+        "case = capacity 1-8 x lossy|non-lossy x 1-4 producer threads x <=12 (thorough <=24) steps {Offer(p, 1-6 unique lines), OfferBig(p, one line of 60 000-200 000 bytes), Burst (every producer offers 50-350 lines in a tight loop, all released by a barrier), CloseGate (underlying write blocks), OpenGate, Settle, DropGuard (appended if absent; producers may offer afterwards)} x fault script (subset of the first 30 write attempts and the first 12 flushes fail); 3 % of the cases: a writer that takes 20-45 ms per write and a guard dropped over a full queue. non-trivial: a fault was injected, or the guard was dropped with a backlog, or lines were offered while the writer was stalled and (lines were dropped | mode is non-lossy); distinct by case".into()
     }
     fn assumptions(&self) -> Vec<String> {
         vec![
